@@ -47,6 +47,8 @@ IntV(a) ==
             <<"alignments-attached-to-their-triple", AlignsOf(T.out.g.epi) = AlignsOf(EpiView(a.g))>>,
             <<"alignment-map", {<<T.out.alns[i][1], T.out.alns[i][2]>> : i \in DOMAIN T.out.alns} = AlnMap(a.g, "align")>>,
             <<"role-alignment-map", {<<T.out.ralns[i][1], T.out.ralns[i][2]>> : i \in DOMAIN T.out.ralns} = AlnMap(a.g, "ralign")>>,
+            <<"alignment-marker-reads-its-text-as-documented",
+                \A i \in DOMAIN T.out.parts : T.out.parts[i][2] = AlnPrefix(T.out.parts[i][1]) /\ T.out.parts[i][3] = AlnIndices(T.out.parts[i][1])>>,
             <<"metadata", T.out.g.meta = T.tree.meta>> >>, 1)
          IN IF v # Acc THEN v
             ELSE IF LayoutOf(T.out.g.epi) # LayoutOf(EpiView(a.g)) THEN Drift("layout markers differ from the reference walk")
@@ -163,6 +165,11 @@ RelV(a, b) ==
                 <<"same-shape", Len(a.obs) = Len(NodeList(T.tree))>>,
                 <<"one-new-name-per-variable", IsFunction(a.obs)>>,
                 <<"bijection-on-node-variables", IsInjective(a.obs)>>,
+                \* "chosen from the node concepts": the documented fields of the format - prefix = the first alphabetic character of the
+                \* node's concept, lower-cased, or "_" - filled in with some index (which index is drift, below)
+                <<"name-is-the-format-applied-to-the-concept-prefix-and-an-index",
+                    ~a.plan.known \/ LET nl == NodeList(T.tree) IN
+                    \A k \in DOMAIN a.obs : \E i \in 0..Len(nl) : a.obs[k][2] = FmtPieces(T.fmt, 1, PrefixOf(nl[k][2])[2], i)>>,
                 <<"applied-at-every-definition-and-reference-nothing-else-touched", T.out.tree = ApplyRelabel(T.tree, map)>>,
                 <<"interpretation-commutes-with-renaming",
                     RelabelCollides(T.tree, map) \/
